@@ -1,6 +1,7 @@
 import CasbinModel.Basic
 import CasbinModel.Proto
 import CasbinModel.Effect
+import CasbinModel.RoleGraph
 /-!
 # Line-protocol driver: runs the executable model on the harness' op stream.
 One op per input line, one canonical answer per output line.
@@ -8,7 +9,27 @@ One op per input line, one canonical answer per output line.
 open Casbin Casbin.Proto
 
 structure DrvState where
-  dummy : Unit := ()
+  rm : RoleMgr String := RoleMgr.new 10
+
+def domOf (s : String) : String := if s == "-" then "DEFAULT" else unesc s
+
+/-! ### C03 -/
+def rmSnapBits (rm : RoleMgr String) (names : List String) (doms : List String) (mask : List Char) : String :=
+  let qs := doms.flatMap (fun d => names.flatMap (fun a => names.map (fun b => (a, b, d))))
+  let rec go (qs : List (String × String × String)) (mask : List Char) (acc : String) : String :=
+    match qs with
+    | [] => acc
+    | (a, b, d) :: rest =>
+      let (m, mrest) := match mask with | [] => ('.', []) | c :: cs => (c, cs)
+      let ch := if m == '?' then '?' else if rm.hasLink a b d then '1' else '0'
+      go rest mrest (acc.push ch)
+  go qs mask ""
+
+def rmSnap (rm : RoleMgr String) (names : List String) (doms : List String) (mask : List Char) : String :=
+  let bits := rmSnapBits rm names doms mask
+  let lists := doms.flatMap (fun d => names.map (fun a =>
+    " R:" ++ encList (sortStrings (rm.getRoles a d)) ++ " U:" ++ encList (sortStrings (rm.getUsers a d))))
+  "H:" ++ bits ++ String.join lists
 
 /-! ### C02 -/
 def effOfChar : Char → Eff
@@ -42,12 +63,29 @@ def step (st : DrvState) (f : List String) : DrvState × String :=
     (st, match EffExpr.ofString (unesc expr) with
          | none => "panic"
          | some e => effRun (Stream.new e cap.toNat!) seq.toList)
+  | ["rm.new", n] => ({ st with rm := RoleMgr.new n.toNat! }, "ok")
+  | ["rm.add", a, b, d] => ({ st with rm := st.rm.addLink (unesc a) (unesc b) (domOf d) }, "ok")
+  | ["rm.del", a, b, d] =>
+    (match st.rm.deleteLink (unesc a) (unesc b) (domOf d) with
+     | some rm' => ({ st with rm := rm' }, "ok")
+     | none => (st, "err:rbac"))
+  | ["rm.clear"] => ({ st with rm := st.rm.clear }, "ok")
+  | ["rm.has", a, b, d] => (st, boolS (st.rm.hasLink (unesc a) (unesc b) (domOf d)))
+  | ["rm.roles", a, d] => (st, encList (sortStrings (st.rm.getRoles (unesc a) (domOf d))))
+  | ["rm.users", a, d] => (st, encList (sortStrings (st.rm.getUsers (unesc a) (domOf d))))
+  | ["rm.snap", names, doms, mask] =>
+    (st, rmSnap st.rm (decList names) ((doms.splitOn ",").map domOf) mask.toList)
+  | ["rm.snapf", names, doms] =>
+    (st, rmSnapBits st.rm (decList names) ((doms.splitOn ",").map domOf) [])
   | _ => (st, "bad-op")
 
 partial def loop (hin : IO.FS.Stream) (hout : IO.FS.Stream) (st : DrvState) : IO Unit := do
   let line ← hin.getLine
   if line.isEmpty then return ()
-  let line := if line.back == '\n' then line.dropRight 1 else line
+  let cs := line.toList
+  let cs := if cs.getLast? == some '\n' then cs.dropLast else cs
+  let cs := match cs with | '~' :: r => r | r => r
+  let line := String.ofList cs
   let (st', out) := step st (line.splitOn "\t")
   hout.putStrLn out
   loop hin hout st'
